@@ -52,6 +52,7 @@ type entSrcCommand struct {
 	Suffixed bool           `json:"suffixed"`
 	BasePath string         `json:"basePath"`
 	Methods  []entSrcMethod `json:"methods"`
+	Opts     bool           `json:"opts"` // the block sets service options of its own (audience)
 }
 
 type entSrcQuery struct {
@@ -184,6 +185,9 @@ func (p *entPrinter) command(c *entSrcCommand) {
 		p.line("command %s {", c.Name)
 	}
 	p.ind++
+	if c.Opts {
+		p.line("options.audience = [\"internal\"]")
+	}
 	if c.BasePath != "" {
 		p.line("basePath = %q", c.BasePath)
 	}
